@@ -39,6 +39,13 @@ def decode_bool(value: Any) -> bool:
   return value
 
 
+def _decode_document_lang(value: Any) -> Optional[str]:
+  """Decodes the `document_lang` configuration value: a language tag as a string, or None"""
+  if value is not None and not isinstance(value, str):
+    raise ValueError(f"Invalid document_lang '{value}' value. Expect: an RFC 5646 language tag as a string.")
+  return value
+
+
 class ModuleConfiguration:
   """Base class for module configurations"""
 
@@ -95,7 +102,7 @@ class GeneralConfiguration(ModuleConfiguration):
   """TT general configuration"""
   log_level: Optional[str] = "INFO"
   progress_bar: Optional[bool] = field(default=True, metadata={"decoder": decode_bool})
-  document_lang: Optional[str] = None
+  document_lang: Optional[str] = field(default=None, metadata={"decoder": _decode_document_lang})
 
   @classmethod
   def name(cls):
